@@ -308,6 +308,23 @@ def closure_loops(F, fn):
     return out
 
 
+def closure_calls(F, fn):
+    """[(closure Fn, call bb, callee name)] for every closure created in `fn` and handed to ANY call (Option / Result
+    combinators as well as iterator adapters): `dep.map_or(Ok(()), |d| orderer.push(&d))`"""
+    out = []
+    if not fn.body:
+        return out
+    b = Body(fn)
+    for bi, t in b.calls():
+        for a in t["args"]:
+            rv = b.def_rvalue(a)
+            if rv is not None and rv["k"] == "agg" and str(rv.get("id", "")).startswith(fn.id + "::{closure"):
+                cf = F.fns.get(rv["id"])
+                if cf is not None and cf.body:
+                    out.append((cf, bi, callee_name(t) or ""))
+    return out
+
+
 def every_item_handled(F, fn, is_target, detail=None):
     """Every item of every loop of `fn` that contains a target call is handled: native loops by loop_iterations_all_call,
     iterator-adapter loops by requiring an exhaustive adapter whose closure reaches a target call on every normal return.
